@@ -190,10 +190,12 @@ impl Item for Val {
     }
 }
 
-/// Take `n` items from a cursor, recording exact lengths before every poll; then
-/// read what it still holds from its Debug rendering. `props` = properties a failed
-/// self-consistency check is attributed to.
-pub fn episode<I>(ctx: &mut Ctx, it: &mut I, n: usize, w: i64, props: &'static str, dbg: bool) -> Value
+/// Take `n` items from a cursor, recording exact lengths before every poll; read what it
+/// still holds from its Debug rendering; then consume the rest the way `op.fin` says
+/// (Iterator's provided methods nth / last / fold, which take the real iterator by value
+/// so that an override in the crate is what runs). Returns the iterator if it still exists.
+/// `props` = properties a failed self-consistency check is attributed to.
+pub fn episode<I>(ctx: &mut Ctx, mut it: I, op: &Value, n: usize, w: i64, props: &'static str, dbg: bool) -> (Value, Option<I>)
 where
     I: ExactSizeIterator,
     I::Item: Item,
@@ -253,7 +255,76 @@ where
             }
         }
     }
-    json!({"yield": yields, "lens": lens, "rem": rem})
+    // ---- the rest, through one of Iterator's provided methods
+    let fin = op["fin"].as_str().unwrap_or("none");
+    let j = op["j"].as_u64().unwrap_or(0) as usize;
+    let mut some = "nofin";
+    let mut r: Vec<Value> = vec![];
+    let mut left: Option<I> = None;
+    match fin {
+        "nth" => {
+            match call(ctx, || it.nth(j)) {
+                Some(Some(x)) => {
+                    some = "item";
+                    r.push(x.json(ctx));
+                    x.check_inside(ctx);
+                    x.keep(ctx);
+                }
+                Some(None) => some = "none",
+                None => some = "panic",
+            }
+            left = Some(it);
+        }
+        "last" => match call(ctx, move || it.last()) {
+            Some(Some(x)) => {
+                some = "item";
+                r.push(x.json(ctx));
+                x.check_inside(ctx);
+                x.keep(ctx);
+            }
+            Some(None) => some = "none",
+            None => some = "panic",
+        },
+        "fold" => {
+            let got = call(ctx, move || {
+                it.fold(Vec::new(), |mut acc: Vec<I::Item>, x| {
+                    let _s = ledger::Suspend::new();
+                    acc.push(x);
+                    acc
+                })
+            });
+            match got {
+                Some(items) => {
+                    some = "seq";
+                    for x in items {
+                        r.push(x.json(ctx));
+                        x.check_inside(ctx);
+                        x.keep(ctx);
+                    }
+                }
+                None => some = "panic",
+            }
+        }
+        _ => left = Some(it),
+    }
+    let mut after = 0usize;
+    if let Some(it) = left.as_mut() {
+        if let Some(l) = call(ctx, || (it.len(), it.size_hint())) {
+            after = l.0;
+            if l.1 != (l.0, Some(l.0)) {
+                ctx.note(props, format!("size_hint {:?} is not exact (len() = {}) after {fin}", l.1, l.0));
+            }
+            if fin != "none" && l.0 == 0 {
+                for _ in 0..2 {
+                    if let Some(Some(x)) = call(ctx, || it.next()) {
+                        ctx.note(props, format!("iterator yielded an item after {fin}() exhausted it"));
+                        x.keep(ctx);
+                    }
+                }
+            }
+        }
+    }
+    (json!({"yield": yields, "lens": lens, "rem": rem, "fin": {"some": some, "r": r, "after": after}}), left)
 }
 
 /// Debug rendering of a cursor into a non-allocating sink (measured: C06, C19).
@@ -504,7 +575,7 @@ pub fn exec_map<const N: usize>(cage: &mut Cage<Map<Key, Val, N>>, op: &Value, c
                 None => return json!(["panic"]),
                 Some(d) => d,
             };
-            let ret = episode(ctx, &mut d, n, NO_WRITE, "C10", true);
+            let (ret, d) = episode(ctx, d, op, n, NO_WRITE, "C10", true);
             end_cursor(ctx, d, s(op, "end"), n);
             ret
         }
@@ -651,7 +722,8 @@ impl<T> Iterator for Source<'_, T> {
     }
 }
 
-fn end_cursor<I: Iterator>(ctx: &mut Ctx, it: I, end: &str, n: usize) {
+fn end_cursor<I: Iterator>(ctx: &mut Ctx, it: Option<I>, end: &str, n: usize) {
+    let Some(it) = it else { return };
     if end == "forget" {
         std::mem::forget(it);
     } else if n % 2 == 1 {
@@ -668,8 +740,8 @@ fn exec_cursor<const N: usize>(cage: &mut Cage<Map<Key, Val, N>>, op: &Value, ct
     let w = i(op, "w");
     let end = s(op, "end");
     macro_rules! borrowing {
-        (@clone $it:ident, $ret:ident, true) => {{
-            let cl = $it.clone();
+        (@clone $ito:ident, $ret:ident, true) => {{ if let Some(mut $ito) = $ito {
+            let cl = $ito.clone();
             let viaclone: Vec<Value> = {
                 let mut c = cl;
                 let mut v = vec![];
@@ -678,14 +750,14 @@ fn exec_cursor<const N: usize>(cage: &mut Cage<Map<Key, Val, N>>, op: &Value, ct
                 }
                 v
             };
-            let cnt = call(ctx, || $it.clone().count());
-            let left = $it.len();
+            let cnt = call(ctx, || $ito.clone().count());
+            let left = $ito.len();
             if cnt != Some(left) {
                 ctx.note("C09", format!("count() = {cnt:?} but len() = {left}"));
             }
             let orig: Vec<Value> = {
                 let mut v = vec![];
-                while let Some(Some(x)) = call(ctx, || $it.next()) {
+                while let Some(Some(x)) = call(ctx, || $ito.next()) {
                     v.push(x.json(ctx));
                 }
                 v
@@ -693,17 +765,17 @@ fn exec_cursor<const N: usize>(cage: &mut Cage<Map<Key, Val, N>>, op: &Value, ct
             if viaclone != orig {
                 ctx.note("C09", format!("a cloned iterator continues differently: clone {viaclone:?} original {orig:?}"));
             }
-            if !$ret["rem"].is_null() && $ret["rem"].as_array().unwrap() != &orig {
+            if s(op, "fin") == "none" && !$ret["rem"].is_null() && $ret["rem"].as_array().unwrap() != &orig {
                 ctx.note("C19", format!("iterator Debug lists {:?} but it then yields {orig:?}", $ret["rem"]));
             }
-        }};
-        (@clone $it:ident, $ret:ident, false) => {{
-            let left = $it.len();
-            let cnt = call(ctx, || $it.count());
+        }}};
+        (@clone $ito:ident, $ret:ident, false) => {{ if let Some($ito) = $ito {
+            let left = $ito.len();
+            let cnt = call(ctx, || $ito.count());
             if cnt != Some(left) {
                 ctx.note("C09", format!("count() = {cnt:?} but len() = {left}"));
             }
-        }};
+        }}};
         ($mk:expr, $clonable:tt) => {{
             // a complete first traversal: a second traversal must agree with it (C09)
             let first: Vec<Value> = {
@@ -714,8 +786,8 @@ fn exec_cursor<const N: usize>(cage: &mut Cage<Map<Key, Val, N>>, op: &Value, ct
                 }
                 v
             };
-            let mut it = $mk;
-            let ret = episode(ctx, &mut it, n, w, "C09", true);
+            let it = $mk;
+            let (ret, it) = episode(ctx, it, op, n, w, "C09", true);
             let y = ret["yield"].as_array().unwrap();
             if y.len() > first.len() || y[..] != first[..y.len()] {
                 ctx.note("C09", format!("two traversals of the unmodified container disagree: {first:?} vs {y:?}"));
@@ -729,35 +801,35 @@ fn exec_cursor<const N: usize>(cage: &mut Cage<Map<Key, Val, N>>, op: &Value, ct
         "keys" => borrowing!(cage.m.keys(), true),
         "values" => borrowing!(cage.m.values(), true),
         "iter_mut" => {
-            let mut it = cage.m.iter_mut();
-            let ret = episode(ctx, &mut it, n, w, "C09", true);
+            let it = cage.m.iter_mut();
+            let (ret, it) = episode(ctx, it, op, n, w, "C09", true);
             borrowing!(@clone it, ret, false);
             ret
         }
         "values_mut" => {
-            let mut it = cage.m.values_mut();
-            let ret = episode(ctx, &mut it, n, w, "C09", true);
+            let it = cage.m.values_mut();
+            let (ret, it) = episode(ctx, it, op, n, w, "C09", true);
             borrowing!(@clone it, ret, false);
             ret
         }
         "into_iter" => {
             let m = std::mem::take(&mut cage.m);
-            let mut it = m.into_iter();
-            let ret = episode(ctx, &mut it, n, NO_WRITE, "C10", true);
+            let it = m.into_iter();
+            let (ret, it) = episode(ctx, it, op, n, NO_WRITE, "C10", true);
             end_cursor(ctx, it, end, n);
             ret
         }
         "into_keys" => {
             let m = std::mem::take(&mut cage.m);
-            let mut it = m.into_keys();
-            let ret = episode(ctx, &mut it, n, NO_WRITE, "C10", true);
+            let it = m.into_keys();
+            let (ret, it) = episode(ctx, it, op, n, NO_WRITE, "C10", true);
             end_cursor(ctx, it, end, n);
             ret
         }
         "into_values" => {
             let m = std::mem::take(&mut cage.m);
-            let mut it = m.into_values();
-            let ret = episode(ctx, &mut it, n, NO_WRITE, "C10", true);
+            let it = m.into_values();
+            let (ret, it) = episode(ctx, it, op, n, NO_WRITE, "C10", true);
             end_cursor(ctx, it, end, n);
             ret
         }
@@ -1134,52 +1206,53 @@ pub fn exec_set<const N: usize>(cage: &mut Cage<Set<Key, N>>, op: &Value, ctx: &
         "s_drain" => {
             let n = i(op, "n") as usize;
             let m = &mut cage.m;
-            let mut d = match call(ctx, || m.drain()) {
+            let d = match call(ctx, || m.drain()) {
                 None => return json!(["panic"]),
                 Some(d) => d,
             };
-            // SetDrain has no Debug impl: what is left is read by draining a second episode
-            let ret = episode(ctx, &mut NoDebug(&mut d), n, NO_WRITE, "C10", false);
-            let mut ret = ret;
-            if s(op, "end") == "forget" {
-                std::mem::forget(d);
-                ret["rem"] = Value::Null;
-            } else {
-                ret["rem"] = Value::Null;
-                end_cursor(ctx, d, "drop", n);
-            }
+            // SetDrain has no Debug impl
+            let (mut ret, d) = episode(ctx, NoDebug(d), op, n, NO_WRITE, "C10", false);
+            ret["rem"] = Value::Null;
+            end_cursor(ctx, d.map(|x| x.0), s(op, "end"), n);
             ret
         }
         "s_iter" => {
             let n = i(op, "n") as usize;
             let first: Vec<Value> = cage.m.iter().map(|k| ctx.jk(k)).collect();
-            let mut it = cage.m.iter();
-            let mut ret = episode(ctx, &mut NoDebug(&mut it), n, NO_WRITE, "C09", false);
+            let it = cage.m.iter();
+            // what the cursor still holds after the n plain steps, read through a clone taken then
+            let rem_probe: Vec<Value> = cage.m.iter().skip(n).map(|k| ctx.jk(k)).collect();
+            let (mut ret, it) = episode(ctx, NoDebug(it), op, n, NO_WRITE, "C09", false);
             let y = ret["yield"].as_array().unwrap();
             if y.len() > first.len() || y[..] != first[..y.len()] {
                 ctx.note("C09", format!("two traversals of the unmodified set disagree: {first:?} vs {y:?}"));
             }
-            let cl = it.clone();
-            let viaclone: Vec<Value> = cl.map(|k| ctx.jk(k)).collect();
-            let left = it.len();
-            let cnt = call(ctx, || it.clone().count());
-            if cnt != Some(left) {
-                ctx.note("C09", format!("count() = {cnt:?} but len() = {left}"));
+            ret["rem"] = Value::Array(rem_probe);
+            if let Some(NoDebug(it)) = it {
+                let cl = it.clone();
+                let viaclone: Vec<Value> = cl.map(|k| ctx.jk(k)).collect();
+                let left = it.len();
+                let cnt = call(ctx, || it.clone().count());
+                if cnt != Some(left) {
+                    ctx.note("C09", format!("count() = {cnt:?} but len() = {left}"));
+                }
+                let orig: Vec<Value> = it.map(|k| ctx.jk(k)).collect();
+                if viaclone != orig {
+                    ctx.note("C09", "a cloned set iterator continues differently".to_string());
+                }
+                if s(op, "fin") == "none" {
+                    ret["rem"] = Value::Array(orig);
+                }
             }
-            let orig: Vec<Value> = it.map(|k| ctx.jk(k)).collect();
-            if viaclone != orig {
-                ctx.note("C09", "a cloned set iterator continues differently".to_string());
-            }
-            ret["rem"] = Value::Array(orig);
             ret
         }
         "s_into_iter" => {
             let n = i(op, "n") as usize;
             let m = std::mem::take(&mut cage.m);
-            let mut it = m.into_iter();
-            let mut ret = episode(ctx, &mut NoDebug(&mut it), n, NO_WRITE, "C10", false);
+            let it = m.into_iter();
+            let (mut ret, it) = episode(ctx, NoDebug(it), op, n, NO_WRITE, "C10", false);
             ret["rem"] = Value::Null;
-            end_cursor(ctx, it, s(op, "end"), n);
+            end_cursor(ctx, it.map(|x| x.0), s(op, "end"), n);
             ret
         }
         "s_extend" | "s_from_iter" | "s_from_array" => {
@@ -1321,9 +1394,10 @@ pub fn exec_set<const N: usize>(cage: &mut Cage<Set<Key, N>>, op: &Value, ctx: &
     }
 }
 
-/// wrapper giving a cursor without a Debug impl the episode interface
-pub struct NoDebug<'a, I>(pub &'a mut I);
-impl<I: Iterator> Iterator for NoDebug<'_, I> {
+/// wrapper giving a cursor without a Debug impl the episode interface; the provided
+/// methods are forwarded explicitly so that the real iterator's own versions run
+pub struct NoDebug<I>(pub I);
+impl<I: Iterator> Iterator for NoDebug<I> {
     type Item = I::Item;
     fn next(&mut self) -> Option<I::Item> {
         self.0.next()
@@ -1331,13 +1405,25 @@ impl<I: Iterator> Iterator for NoDebug<'_, I> {
     fn size_hint(&self) -> (usize, Option<usize>) {
         self.0.size_hint()
     }
+    fn nth(&mut self, n: usize) -> Option<I::Item> {
+        self.0.nth(n)
+    }
+    fn last(self) -> Option<I::Item> {
+        self.0.last()
+    }
+    fn count(self) -> usize {
+        self.0.count()
+    }
+    fn fold<B, F: FnMut(B, I::Item) -> B>(self, init: B, f: F) -> B {
+        self.0.fold(init, f)
+    }
 }
-impl<I: ExactSizeIterator> ExactSizeIterator for NoDebug<'_, I> {
+impl<I: ExactSizeIterator> ExactSizeIterator for NoDebug<I> {
     fn len(&self) -> usize {
         self.0.len()
     }
 }
-impl<I> std::fmt::Debug for NoDebug<'_, I> {
+impl<I> std::fmt::Debug for NoDebug<I> {
     fn fmt(&self, _f: &mut std::fmt::Formatter<'_>) -> std::fmt::Result {
         Ok(())
     }
